@@ -885,6 +885,8 @@ class CallsMixin:
                 self.havoc_call(c, fn, rel, mods)
             result = self.fresh('r_' + fn.name)
             env['result'] = result
+            for cl in c.of('returns'):
+                self.assume_type(result, cl.extra['type'])
             saved_old = self.old
             self.old = _Old(pre[0], pre[1], env)
             try:
@@ -1269,6 +1271,9 @@ class CallsMixin:
         d = self.val(self.ev(node.args[0]))
         j = self.as_int(self.ev(node.args[1]))
         return z3.Select(z3.Select(self.field('dict.keys'), Value.a(d)), j)
+
+    def sp_inf(self, node):
+        return VInf
 
     def sp_ascii_str(self, node):
         v = self.val(self.ev(node.args[0]))
